@@ -12,7 +12,7 @@ Definition to_cobs (hasf : bool) (s : cstate) (o : client_obs) : cobs :=
      ob_hops := match co_path o with Some p => [Z.of_nat p] | None => [] end;
      ob_resets := if hasf && co_reset o then 1 else 0;
      ob_first := match co_reqs o with [] => -1 | b :: _ => if b then 1 else 0 end;
-     ob_vals := co_vals o |}.
+     ob_vals := co_vals o; ob_old := cs_old s |}.
 
 Fixpoint to_cobs_list (hasfs : list bool) (cs : list cstate) (obs : list client_obs) : list cobs :=
   match hasfs, cs, obs with
@@ -113,7 +113,7 @@ Qed.
 
 (* the first request of a round *)
 Lemma exch_loop_first n s ms vs pfp s' rl dl :
-  exch_loop (S n) s ms vs pfp = (s', rl, dl) -> exists r, rl = (cs_en s && cs_ref s) :: r.
+  exch_loop (S n) s ms vs pfp = (s', rl, dl) -> exists r, rl = req_form s :: r.
 Proof.
   cbn [exch_loop]. unfold exch1. destruct (hd PN ms).
   - destruct (in_ilv _).
@@ -123,6 +123,7 @@ Proof.
     + intros H. inversion H. eauto.
     + destruct (exch_loop n _ _ _ _) as [[s2 rl2] dl2]. intros H. inversion H. eauto.
   - destruct (exch_loop n _ _ _ _) as [[s2 rl2] dl2]. intros H. inversion H. eauto.
+  - intros H. inversion H. eauto.
 Qed.
 
 Lemma n_exch_pos s : exists n, n_exch s = S n.
@@ -148,9 +149,10 @@ Section Round.
         unfold run_client. destruct (n_exch_pos s) as [n Hn]. rewrite Hn.
         destruct (exch_loop (S n) s (hd [] mss) (hd [] vss) (fp_of fps p)) as [[s1 rl] dl] eqn:El.
         destruct (exch_loop_first _ _ _ _ _ _ _ _ El) as [rr ->].
-        unfold sticky_ok, to_cobs. cbn [ob_hops co_path ob_fp ob_resets co_reset ob_first co_reqs].
+        unfold sticky_ok, to_cobs. cbn [ob_hops co_path ob_fp ob_resets co_reset ob_first co_reqs ob_old].
         rewrite Nat2Z.id. fold (fp_of fps p). rewrite Hfp, Z.eqb_refl, andb_false_r.
-        unfold in_ilv in Hil. apply andb_true_iff in Hil. destruct Hil as [Hil _]. rewrite Hil. reflexivity.
+        unfold in_ilv in Hil. apply andb_true_iff in Hil. destruct Hil as [Hil _]. unfold req_form. rewrite Hil.
+        destruct (cs_old s); reflexivity.
       + cbn [map is_none is_some].
         assert (Hgen : forall p' qs', all2 (sticky_ok fps)
                    (to_cobs_list (h :: hs) (s :: r) (run_clients fps (s :: r) (p' :: fill sps' qs') (true :: map is_none sps') mss vss))
@@ -161,8 +163,8 @@ Section Round.
           - destruct (n_exch_pos (reset_client s)) as [n Hn]. rewrite Hn.
             destruct (exch_loop (S n) (reset_client s) (hd [] mss) (hd [] vss) (fp_of fps q)) as [[s1 rl] dl] eqn:El.
             destruct (exch_loop_first _ _ _ _ _ _ _ _ El) as [rr ->].
-            unfold sticky_ok, to_cobs. cbn [ob_resets co_reset ob_first co_reqs ob_filter reset_client cs_ref cs_en].
-            rewrite andb_false_r, andb_true_r. destruct h; reflexivity.
+            unfold sticky_ok, to_cobs, req_form. cbn [ob_resets co_reset ob_first co_reqs ob_filter reset_client cs_ref cs_en cs_old].
+            rewrite andb_false_r. cbn [andb]. rewrite andb_true_r. destruct h; reflexivity.
           - unfold sticky_ok, to_cobs. cbn [ob_resets co_reset ob_first co_reqs ob_filter].
             rewrite andb_true_r. destruct h; reflexivity. }
         cbn [fill]. destruct qs as [|q qs']; apply Hgen.
@@ -238,27 +240,27 @@ Proof.
 Qed.
 
 (* Main theorem: the oracle accepts every round the model can produce. *)
-Theorem model_round_ok fps cs hasfs d tape mss vss obs off rest :
+Theorem model_round_ok c fps cs hasfs d tape mss vss obs off rest :
   length hasfs = length cs -> Z.of_nat (length fps) <= max_i64 -> words tape -> word d ->
-  run_round fps cs d tape mss vss = ROk obs off rest ->
+  run_round_c c fps cs d tape mss vss = ROk obs off rest ->
   C15_round_ok fps (to_cobs_list hasfs cs obs) 0 off = true.
 Proof.
-  intros Hh Hmax Hw Hd. unfold run_round.
-  destruct (assign fps cs false d tape) as [asg resets rest'| | | |] eqn:Ea; try discriminate.
+  intros Hh Hmax Hw Hd. unfold run_round_c.
+  destruct (assign fps cs c d tape) as [asg resets rest'| | | |] eqn:Ea; try discriminate.
   destruct (round_offset _) as [m|] eqn:Ero; [|discriminate].
   intros H. inversion H; subst obs off rest'. clear H.
   eapply round_clauses; eauto. rewrite Ero. split; reflexivity.
 Qed.
 
 (* ... the round that reports errNoMeasurement (no participant produced a measurement) ... *)
-Theorem model_nomeas_ok fps cs hasfs d tape mss vss obs rest :
+Theorem model_nomeas_ok c fps cs hasfs d tape mss vss obs rest :
   length hasfs = length cs -> Z.of_nat (length fps) <= max_i64 -> words tape -> word d ->
-  run_round fps cs d tape mss vss = RNoMeas obs rest ->
+  run_round_c c fps cs d tape mss vss = RNoMeas obs rest ->
   C15_round_ok fps (to_cobs_list hasfs cs obs) 4 0 = true
   /\ Forall (fun o => co_vals o = []) (participants obs).
 Proof.
-  intros Hh Hmax Hw Hd. unfold run_round.
-  destruct (assign fps cs false d tape) as [asg resets rest'| | | |] eqn:Ea; try discriminate.
+  intros Hh Hmax Hw Hd. unfold run_round_c.
+  destruct (assign fps cs c d tape) as [asg resets rest'| | | |] eqn:Ea; try discriminate.
   destruct (round_offset _) as [m|] eqn:Ero; [discriminate|].
   intros H. inversion H; subst obs rest'. clear H. split.
   - eapply round_clauses; eauto. rewrite Ero. reflexivity.
@@ -273,21 +275,21 @@ Qed.
 (* ... and the round that reports errNoPath *)
 Definition idle_cobs (hasf : bool) (s : cstate) : cobs :=
   {| ob_ilv := in_ilv s; ob_fp := cs_fp s; ob_filter := hasf; ob_hops := []; ob_resets := if hasf then 1 else 0;
-     ob_first := -1; ob_vals := [] |}.
+     ob_first := -1; ob_vals := []; ob_old := cs_old s |}.
 
 Lemma keeps_none_avail cs : keeps_cs cs [] = map (fun _ => false) cs.
 Proof. induction cs as [|c r IH]; cbn; [reflexivity|]. rewrite andb_false_r. f_equal. exact IH. Qed.
 
-Theorem model_nopath_ok fps cs hasfs d tape mss vss post resets rest :
+Theorem model_nopath_ok c fps cs hasfs d tape mss vss post resets rest :
   length hasfs = length cs ->
-  run_round fps cs d tape mss vss = RNoPath post resets rest ->
+  run_round_c c fps cs d tape mss vss = RNoPath post resets rest ->
   C15_round_ok fps (map (fun hs : bool * cstate => idle_cobs (fst hs) (snd hs)) (combine hasfs cs)) 1 0 = true
   /\ resets = map (fun _ => true) cs.
 Proof.
-  intros Hh. unfold run_round.
-  destruct (assign fps cs false d tape) as [asg resets' rest'| resets' rest'| | |] eqn:Ea; try discriminate.
+  intros Hh. unfold run_round_c.
+  destruct (assign fps cs c d tape) as [asg resets' rest'| resets' rest'| | |] eqn:Ea; try discriminate.
   { destruct (round_offset _); discriminate. }
-  intros H. inversion H; subst post resets rest. clear H.
+  intros H. unfold post_reset in H. inversion H; subst post resets rest. clear H.
   destruct (assign_nopath _ _ _ _ _ _ _ Ea) as [Hmin Hres]. split; [|exact Hres].
   unfold C15_round_ok.
   set (L := map (fun hs : bool * cstate => idle_cobs (fst hs) (snd hs)) (combine hasfs cs)).
